@@ -37,7 +37,10 @@ RULE = ("strings: empty, long (to 5000 bytes; 20000 in the thorough tier), label
         "non-ASCII digits; each string goes through every validator. Histories: setup (monitor, browse, resolver, "
         "registration), one hostile step (API calls with generated strings and huge numbers, and/or packets: "
         "structured responses/queries aimed at the active searches and the registration with hostile labels, "
-        "C01's wild and mutated packets), 2-4 s of timer-exact virtual time, final status + fresh browse. "
+        "C01's wild and mutated packets; family probe-conflict: a service being probed receives peer probe queries "
+        "(ANY question for its instance / host name, authority lists empty / strict prefix / equal / extended / "
+        "different, built from its own records, IPv4 and IPv4+IPv6, with and without TXT data)), 2-4 s of "
+        "timer-exact virtual time, final status + fresh browse. "
         "non-trivial = not SKIP; distinct = distinct case lines")
 TRUSTED = [
     "Coq 8.16.1 kernel (coqc); vm_compute only in Examples and in the two refutation witnesses",
@@ -341,6 +344,82 @@ def reencode_history(hid, alias_labels, via="ptr"):
     return history(hid, [{"dt": 100, "dgrams": [dg(p.finish(flags=0x8400))]}], settle_ms=2000)
 
 
+# ---- probe conflicts: peer probe queries for the names of a service that is being probed ----
+IFACES6 = IFACES + [{"name": "eth0", "index": 2, "addr": "fe80::10", "mask": "ffff:ffff:ffff:ffff::"}]
+PC_TY = "_pc._tcp.local."
+PC_INST = "pc"
+PC_HOST = "pchost.local."
+
+
+def probe_conflict_history(hid, rng, v6, with_prop, plan=None):
+    """register a service (probing starts after a jitter < 250 ms), then, inside the 750 ms
+    probing window, deliver probe queries (QR=0, question ANY for the instance or host name,
+    authority section built from the service's own records: empty / strict prefix / equal /
+    extended / different / other names only); the daemon must survive"""
+    inst = labs(PC_INST, "_pc", "_tcp", "local")
+    host = labs("pchost", "local")
+    txt = (b"\x03k=v" if with_prop else b"\x00")
+    own_inst = [(16, rd_bytes(txt)), (33, rd_srv(0, 0, 8080, host))]          # sorted by type: TXT, SRV
+    own_host = [(1, rd_bytes(bytes([192, 168, 1, 10])))]
+    if v6:
+        own_host.append((28, rd_bytes(bytes.fromhex("fe80000000000000" + "0000000000000010"))))
+    variants_inst = {
+        "empty": [], "prefix": own_inst[:1], "equal": own_inst,
+        "extended": own_inst + [(47, dnsgen.rd_nsec(inst, b"\x00\x04\x00\x00\x80\x00"))],
+        "second-only": own_inst[1:], "greater": [(16, rd_bytes(b"\x03z=z"))], "less": [(16, rd_bytes(b""))],
+        "prefix-then-diff": [own_inst[0], (33, rd_srv(0, 0, 9, labs("zz", "local")))],
+    }
+    variants_host = {
+        "empty": [], "prefix": own_host[:1], "equal": own_host,
+        "extended": own_host + [(28, rd_bytes(bytes(16)))], "greater": [(1, rd_bytes(bytes([255, 1, 1, 1])))],
+        "less": [(1, rd_bytes(bytes([1, 1, 1, 1])))], "second-only": own_host[1:],
+    }
+
+    def packet(name, recs, also_other):
+        p = Packet(compress=rng.random() < 0.5)
+        p.question(name, 255, rng.choice([1, 0x8001]))
+        for ty, rd in recs:
+            p.rr(2, name, ty, rng.choice([1, 0x8001]), rng.choice([120, 4500]), rd)
+        if also_other or not recs:
+            p.rr(2, labs("someone", "else", "local"), 1, 1, 120, rd_bytes(bytes([10, 0, 0, 1])))
+        return p.finish(flags=0)
+    steps = [{"dt": 0, "calls": [{"op": "register", "svc": {
+        "ty": PC_TY, "name": PC_INST, "host": PC_HOST, "ips": "192.168.1.10,fe80::10" if v6 else "192.168.1.10",
+        "port": 8080, "props": [["6b", "76"]] if with_prop else []}}]}]
+    for dt in ([300, 200, 200] if plan is None else [300]):
+        dgs = []
+        for _ in range(1 if plan else rng.choice([1, 2, 3])):
+            if plan:
+                which, var = plan
+            else:
+                which = rng.choice(["inst", "host"])
+                var = rng.choice(sorted(variants_inst if which == "inst" else variants_host))
+            name, recs = (inst, variants_inst[var]) if which == "inst" else (host, variants_host[var])
+            if rng.random() < 0.15 and not plan:
+                name = [name[0].upper()] + name[1:]
+            dgs.append(dg(packet(name, recs, rng.random() < 0.3)))
+        steps.append({"dt": dt, "dgrams": dgs})
+    line = history(hid, steps, settle_ms=3000)
+    if v6:
+        h = json.loads(line[5:])
+        h["daemons"][0]["ifaces"] = IFACES6
+        line = "simh " + json.dumps(h, separators=(",", ":"), ensure_ascii=False)
+    return line
+
+
+def probe_conflict_cases(rng, n_random):
+    cs = []
+    for v6 in (False, True):
+        for with_prop in (False, True):
+            for which, names in (("inst", ["empty", "prefix", "equal", "extended", "second-only", "greater", "less", "prefix-then-diff"]),
+                                 ("host", ["empty", "prefix", "equal", "extended", "greater", "less", "second-only"])):
+                for var in names:
+                    cs.append(Case(probe_conflict_history("pc-%s-%s-%d%d" % (which, var, v6, with_prop), rng, v6, with_prop, (which, var)), "probe-conflict"))
+    for i in range(n_random):
+        cs.append(Case(probe_conflict_history("pc-rand-%d" % i, rng, rng.random() < 0.5, rng.random() < 0.5), "probe-conflict"))
+    return cs
+
+
 def fixed_histories():
     hs = []
     for n in (59, 60, 61, 62, 63):
@@ -395,6 +474,7 @@ def generate(rng, tier):
         host = rng.choice([rng.choice(pool), "h.local.", "h.local.local.", ".local.local.", "é.local.local."])
         cases.append(Case("v_new %s %s %s" % (hx(ty), hx(nm), hx(host)), "service-info-new"))
     cases += fixed_histories()
+    cases += probe_conflict_cases(rng, 60 if quick else 1500)
     n_api = 120 if quick else 2500
     n_pkt = 220 if quick else 5000
     for i in range(n_api):
